@@ -281,6 +281,16 @@ var c19RTPictures = []struct {
 	{"[Y0001]/[M01]/[D01]", 86400000, true},
 	{"[M01].[D01].[Y0001]", 86400000, true},
 	{"at [H01]h[m01] on [D01]-[M01]-[Y0001] [Z01:01]", 60000, false},
+	// the fraction component somewhere else than directly after "[s01]." or "[s01],"
+	{"[Y0001]-[M01]-[D01] [H01]:[m01]:[s01] [f001] [Z01:01]", 1, false},
+	{"[f001] ms past [H01]:[m01]:[s01] on [Y0001]-[M01]-[D01]", 1, true},
+	{"[Y0001]-[M01]-[D01]T[H01]:[m01]:[s01],[f001]", 1, true},
+}
+
+// fractionDetached: the picture has [f001] that is not directly preceded by '.' or ','
+func fractionDetached(pic string) bool {
+	i := strings.Index(pic, "[f001]")
+	return i >= 0 && (i == 0 || (pic[i-1] != '.' && pic[i-1] != ','))
 }
 
 func c19Misc(r *fw.Rec, rr *prng.R) {
@@ -306,7 +316,11 @@ func c19Misc(r *fw.Rec, rr *prng.R) {
 		o := obs.Run(prog, decodeDoc(docJSON))
 		r.Outcome(o.Class())
 		if f, ok := obs.Normalize(o.Val, nil).(float64); o.Kind != "value" || !ok || int64(f) != ms {
-			r.Violation("roundtrip-picture", fmt.Sprintf("%s with %s gave %s, want %d", prog, docJSON, o.String(), ms), nil)
+			sig := "roundtrip-picture"
+			if fractionDetached(p.Pic) && o.Kind == "error" {
+				sig += ":fraction-component-not-after-dot-or-comma"
+			}
+			r.Violation(sig, fmt.Sprintf("%s with %s gave %s, want %d", prog, docJSON, o.String(), ms), nil)
 			return
 		}
 		r.Held()
@@ -323,6 +337,11 @@ func c19Misc(r *fw.Rec, rr *prng.R) {
 			{`$fromMillis(0, (), "0530")`, "tz without sign"}, {`$fromMillis(0, (), "+05:30")`, "tz with colon"}, {`$fromMillis(0, (), "++100")`, "tz double sign"}, {`$fromMillis(0, (), "+-100")`, "tz double sign"},
 			{`$fromMillis(0, (), "+1a00")`, "tz with letter"}, {`$fromMillis(0, (), "+530")`, "tz too short"}, {`$fromMillis(0, (), "+05300")`, "tz too long"}, {`$fromMillis(0, (), "UTC")`, "tz name"}, {`$fromMillis(0, (), " 0100")`, "tz with space"},
 			{`$toMillis("2017", "[")`, "invalid picture"},
+		}
+		// offsets whose minute field is not a number of minutes within an hour
+		for k := 0; k < 8; k++ {
+			z := fmt.Sprintf("%s%02d%02d", rr.Pick("+", "-"), rr.Range(0, 14), rr.Range(60, 99))
+			cases = append(cases, ec{`$fromMillis(0, (), "` + z + `")`, "tz minutes out of range"})
 		}
 		c := cases[rr.Intn(len(cases))]
 		r.Begin(c.prog, "")
@@ -396,7 +415,7 @@ func init() {
 	fw.Register(&fw.Prop{
 		ID: "C19", Title: "$fromMillis renders the right calendar fields and $toMillis inverts it",
 		Rule: fmt.Sprintf("cases: (a) days from 1000-01-01 to 9999-12-31 (thorough: every one of the %d days at 3 PRNG-chosen times of day; quick: every 97th day plus all month/year boundaries of 400 years, each hour of the day and the boundary milliseconds 00:00:00.000 / 23:59:59.999) with a PRNG-chosen offset from -1400 to +1400 in 15-minute steps: one evaluation renders %d components (Y M D d F W H h P m s f Z z with width, name and ordinal modifiers) and the default picture, and round-trips through $toMillis with the default and with a full custom picture; ", dayN-day0+1, len(c19Components)) +
-			"(b) PRNG-generated instants for 7 round-trip pictures built from [Y0001] [M01] [D01] [H01] [m01] [s01] [f001] [Z01:01] on the instants each can represent; (c) 26 unparsable texts, invalid pictures and invalid time zones that must be errors; (d) $millis()/$now() constancy within one evaluation and inside the wall-clock bracket around Eval. " +
+			"(b) PRNG-generated instants for 10 round-trip pictures built from [Y0001] [M01] [D01] [H01] [m01] [s01] [f001] [Z01:01] on the instants each can represent; (c) 26 unparsable texts, invalid pictures and invalid time zones, plus generated offsets with a minute field of 60..99, that must be errors; (d) $millis()/$now() constancy within one evaluation and inside the wall-clock bracket around Eval. " +
 			"Oracle: independent proleptic-Gregorian arithmetic (days-from-civil, ISO-8601 week rule), cross-checked against Go's time package on 10 000 instants at start-up. non-trivial = every case; distinct by (instant, offset)",
 		Assumptions: []string{"roman/word presentations, [w], numeric [F1], bare [f], [ZN], [C], [E] are not checked (the statement lists width, name and ordinal modifiers only)", "the wall clock is read only for the $now bracket, where it is the subject of the property"},
 		Plan: func(tier string, seed uint64) *fw.Plan {
